@@ -332,6 +332,21 @@ def r4(ctx, R, g, call, loop, line_var):
             R.ok("C06.R4", ex.short, "literal patterns before the word pattern", loc(ex, ex.node), " < ".join(order))
         else:
             R.violation("C06.R4", ex.short, "literal patterns before the word pattern", loc(ex, ex.node), f"order {order}: a position inside a character literal expands to the word under it, so text inside literals is resolved, returned as a reference and renamed")
+        # the expander accepts a match whose span touches the column (start <= col <= end, both
+        # inclusive) and takes the first pattern that has one: a pattern tried before WORD whose
+        # matches can begin with an operator sign or a digit wins at the column right after a
+        # one-letter identifier (`i+1`, `n-1`: the probe column start+1 is also the start of `+1`)
+        if word is not None:
+            for i, nm in enumerate(order[:word]):
+                rx_ = ctx.p.named.get(nm)
+                if rx_ is None or rx_.tree is None:
+                    continue
+                fs, _ = rex.first_chars(rx_.tree, rx_.ignorecase)
+                adj = sorted(ch for ch in fs if ch in "+-*/=<>,()0123456789")
+                if adj:
+                    R.violation("C06.R4", ex.short, f"{nm} tried before the word pattern", loc(ex, ex.node), f"order {order}: {nm} can match text starting with {adj[:6]} that directly follows an identifier; at the column after a one-letter name (`i=i+1`, `k-1`) the expander returns `+1` instead of the name, the occurrence is not resolved and references/rename miss it")
+                else:
+                    R.ok("C06.R4", ex.short, f"{nm} tried before the word pattern", loc(ex, ex.node), f"{nm} cannot start where an identifier ends in an expression (first characters {sorted(fs)[:6]})")
 
 
 def r5(ctx, R, g, hs):
